@@ -105,26 +105,31 @@ Definition count_ok (l : list wcall) (e : entry) : bool :=
 
 Definition counts_ok (l : list wcall) : bool := forallb (count_ok l) (List.app exceptions other_files).
 
-Definition has_call (l : list wcall) (file fn callee : string) : bool :=
-  existsb (fun w => String.eqb file (w_file w) && String.eqb fn (w_func w) && String.eqb callee (w_callee w)) l.
+Definition count_calls (l : list wcall) (file callee : string) : N :=
+  N.of_nat (List.length (List.filter (fun w => String.eqb file (w_file w) && String.eqb callee (w_callee w)) l)).
 
 (** The save paths the property names must be in the table (guards against a
-    scanner that silently finds nothing). *)
-Definition expected_sites : list (string * string * string) := [
-  ("internal/home/config.go", "write", "maybe.WriteFile");
-  ("internal/home/config.go", "parseConfig", "maybe.WriteFile");
-  ("internal/dhcpd/db.go", "writeDB", "maybe.WriteFile");
-  ("internal/filtering/filter.go", "updateIntl", "aghrenameio.NewPendingFile");
-  ("internal/filtering/filter.go", "finalizeUpdate", "<pending>.CloseReplace");
-  ("internal/filtering/filter.go", "finalizeUpdate", "<pending>.Cleanup");
-  ("internal/aghrenameio/renameio_unix.go", "newPendingFile", "renameio.NewPendingFile");
-  ("internal/aghrenameio/renameio_unix.go", "CloseReplace", "<pending>.CloseAtomicallyReplace");
-  ("internal/filtering/rulelist/filter.go", "readFromHTTP", "aghrenameio.NewPendingFile");
-  ("internal/dhcpd/http_unix.go", "handleReset", "os.Remove");
-  ("internal/dhcpsvc/db.go", "dbStore", "maybe.WriteFile");
-  ("internal/next/configmgr/configmgr.go", "write", "maybe.WriteFile");
-  ("internal/updater/updater.go", "copyFile", "os.WriteFile")
+    scanner that silently finds nothing): per file, at least so many calls of
+    the rename-based writer.  Keyed by file and callee only, so that moving a
+    save into a helper function of the same file (as the fix that split
+    configuration.write into write / writeWithTLS did) is not reported. *)
+Definition expected_sites : list (string * string * N) := [
+  ("internal/home/config.go", "maybe.WriteFile", 2%N);          (* the ordinary save and the upgrade write *)
+  ("internal/dhcpd/db.go", "maybe.WriteFile", 1%N);
+  ("internal/filtering/filter.go", "aghrenameio.NewPendingFile", 1%N);
+  ("internal/filtering/filter.go", "<pending>.CloseReplace", 1%N);
+  ("internal/filtering/filter.go", "<pending>.Cleanup", 1%N);
+  ("internal/aghrenameio/renameio_unix.go", "renameio.NewPendingFile", 1%N);
+  ("internal/aghrenameio/renameio_unix.go", "<pending>.CloseAtomicallyReplace", 1%N);
+  ("internal/filtering/rulelist/filter.go", "aghrenameio.NewPendingFile", 2%N);   (* from HTTP and from a file *)
+  ("internal/filtering/rulelist/filter.go", "aghrenameio.WithDeferredCleanup", 2%N);
+  ("internal/dhcpd/http_unix.go", "os.Remove", 1%N);
+  ("internal/dhcpsvc/db.go", "maybe.WriteFile", 1%N);
+  ("internal/next/configmgr/configmgr.go", "maybe.WriteFile", 1%N);
+  ("internal/updater/updater.go", "os.WriteFile", 1%N)
 ].
 
-Definition sites_present (l : list wcall) : bool :=
-  forallb (fun e => match e with (f, fn, c) => has_call l f fn c end) expected_sites.
+Definition site_present (l : list wcall) (e : string * string * N) : bool :=
+  match e with (f, c, n) => N.leb n (count_calls l f c) end.
+
+Definition sites_present (l : list wcall) : bool := forallb (site_present l) expected_sites.
